@@ -203,10 +203,12 @@ func tokenizeClassifiedLine(line string, classes []tokenizer.ByteClass) []wordTo
 
 	flush := func() {
 		if wordStart >= 0 {
-			words = append(words, wordToken{
-				text:   currentWord.String(),
-				column: wordStart + 1, // 1-indexed
-			})
+			if !isParameterName(line, wordStart) {
+				words = append(words, wordToken{
+					text:   currentWord.String(),
+					column: wordStart + 1, // 1-indexed
+				})
+			}
 			currentWord.Reset()
 			wordStart = -1
 		}
@@ -233,6 +235,22 @@ func tokenizeClassifiedLine(line string, classes []tokenizer.ByteClass) []wordTo
 	flush()
 
 	return words
+}
+
+// isParameterName reports whether the word starting at byte start of line is
+// the name of a parameter (@from, :limit): it is part of the placeholder token,
+// never a keyword. A cast (a::date) is not a parameter.
+func isParameterName(line string, start int) bool {
+	if start <= 0 || start > len(line) {
+		return false
+	}
+	switch line[start-1] {
+	case '@':
+		return true
+	case ':':
+		return !(start > 1 && line[start-2] == ':')
+	}
+	return false
 }
 
 // Fix converts all keywords to the preferred case in SQL content.
@@ -274,7 +292,11 @@ func (r *KeywordCaseRule) fixLine(line string, classes []tokenizer.ByteClass) st
 
 	flush := func() {
 		if wordStart >= 0 {
-			result.WriteString(r.convertKeyword(currentWord.String()))
+			if isParameterName(line, wordStart) {
+				result.WriteString(currentWord.String())
+			} else {
+				result.WriteString(r.convertKeyword(currentWord.String()))
+			}
 			currentWord.Reset()
 			wordStart = -1
 		}
